@@ -30,6 +30,14 @@ static void load_inputs(void) {
 #endif
 }
 
+
+/* representation invariant of a session table as far as consumers outside the table code rely on it */
+static bool tab_consistent(const session_table *t) {
+    unsigned nv = 0; bool allc = true;
+    for (int i = 0; i < SESSION_TABLE_MAX_ENTRIES; i++) if (t->entries[i].valid) { nv++; if (!t->entries[i].complete) allc = false; }
+    return t->count == nv && t->all_complete == allc;
+}
+
 enum { Q = 0, C = 1, E = 2 };
 
 /* exhaustive single step: state x input in [-128,255] x any elapsed time */
@@ -91,6 +99,7 @@ void h_tick(void) {
         tab = session_table_create();
         V_ASSUME(tab != 0);
         *tab = in.tab;
+        V_ASSUME(tab_consistent(tab));
     }
     g_plat.now_s = in.now_s; g_plat.now_ms = in.now_ms;
     automata_tick(a, 0, tab, 0);
@@ -131,6 +140,7 @@ void h_two_ticks(void) {
     session_table *tab = session_table_create();
     V_ASSUME(tab != 0);
     *tab = in.tab;
+    V_ASSUME(tab_consistent(tab));
     V_ASSUME(in.last_ts - in.t0 < 30);          /* first tick before the deadline (in.last_ts reused as its time) */
     g_plat.now_s = in.last_ts; g_plat.now_ms = in.now_ms;
     automata_tick(a, 0, tab, 0);
